@@ -564,7 +564,7 @@ class NpyWriter(object):
             assert chunk.shape[1:] == self.shape[1:]
         else:  # pragma: no cover
             assert chunk.shape == self.shape[1:]
-        self.fp.write(chunk.tobytes())
+        self.fp.write(np.asarray(chunk, dtype=self.dtype).tobytes())
 
     def close(self):
         self.fp.close()
